@@ -22,7 +22,7 @@ func UnpackMessage(message []byte, pack transport.Packager, source string) (*tra
 	doubleQuote := []byte("\"")
 	msg := message
 
-	if bytes.HasPrefix(message, doubleQuote) && bytes.HasSuffix(message, doubleQuote) {
+	if len(message) >= 2*len(doubleQuote) && bytes.HasPrefix(message, doubleQuote) && bytes.HasSuffix(message, doubleQuote) {
 		logger.Debugf("unpack msg from %s is wrapped with double quotes trying to base64 decode before unpacking..",
 			source)
 
